@@ -13,7 +13,7 @@ ID = "C12"
 LEVEL = "exploration"
 # a run stuck inside C code (beyond the reach of a Python signal handler) is
 # cut off by a watchdog thread after this many seconds (core._hard_hangs)
-RUN_HARD_TIMEOUT = 60
+RUN_HARD_TIMEOUT = 120
 RULE = ("each run = one order n (17 curve orders, toy orders, seeded n >= 2, "
         "byte-aligned or not) and 6-12 (r, s) pairs with boundary bias, each "
         "encoded with sigencode_string / _strings / _der and delivered intact "
